@@ -41,6 +41,10 @@ def load_repo():
     n.puan, n.pg, n.pnd, n.cc, n.misc, n.pr = puan, pg, pnd, cc, misc, pr
     _ns = n
     install_int_shadow()
+    # M1 for the logic layer: plog only uses numpy as np.array(pairs).sum(axis=0) >= value, which keeps proxies on its own; the
+    # forwarding shim only matters if the code asks for a numeric dtype (it then gets object storage instead of an int() conversion)
+    from . import npshim
+    pg.np = npshim.Shim()
     return n
 
 
